@@ -43,7 +43,7 @@ def _dec(rnd, lo, hi, places=2):
     return rnd.randint(int(lo * q), int(hi * q)) / q
 
 
-def program_for(bp, decl, seed, horizon=HORIZON, with_ic=None, region_mode='random'):
+def program_for(bp, decl, seed, horizon=HORIZON, with_ic=None, region_mode='random', api_routes=True):
     """The construction script (model program) of a blueprint declared in the order `decl`.
     Parameters, exogenous paths and exchange rates are seeded random decimals."""
     rnd = random.Random('%s|%s' % (bp['name'], seed))
@@ -122,7 +122,10 @@ def program_for(bp, decl, seed, horizon=HORIZON, with_ic=None, region_mode='rand
         elif k == 'CentralBank':
             if d['tre'] and d['trector']:
                 a = {'treasury': '@' + ref(d['tre'])}
-        if k == 'PlainGovernment':
+        if k == 'RestOfWorld':
+            # a user's bare Sector inside the ExternalSector country
+            prog.append({'op': 'Sector', 'country': 'EXT', 'kind': 'Sector', 'code': d['code'], 'args': {}})
+        elif k == 'PlainGovernment':
             # the user's own government: a bare Sector that demands goods and receives the taxes
             prog.append({'op': 'Sector', 'country': d['cc'], 'kind': 'Sector', 'code': d['code'], 'args': {}})
             prog.append({'op': 'AddVariable', 'sector': ref(s), 'name': 'DEM_' + d['good'], 'desc': 'government consumption', 'eqn': '0.0'})
@@ -143,9 +146,12 @@ def program_for(bp, decl, seed, horizon=HORIZON, with_ic=None, region_mode='rand
                          'eqn': x[4:] if x.startswith('EXP_') else '0.02'})
         if d['aw']:
             w = params[s]['wgt'] / len(d['aw'])
-            prog.append({'op': 'AssetWeighting', 'sector': ref(s),
+            prog.append({'op': 'AssetWeighting', 'sector': ref(s), 'as': 'dict' if (params[s]['wgt'] * 100) % 2 < 1 else 'list',
                          'weights': [[a, '%0.3f' % (w * (1 + 0.5 * i))] for i, a in enumerate(d['aw'])], 'residual': 'MON'})
-        if d['gift']:
+        if d['gift'] and k == 'RestOfWorld':
+            prog.append({'op': 'AddVariable', 'sector': ref(s), 'name': 'GIFT', 'desc': 'aid paid (in the numeraire)',
+                         'eqn': '%0.2f' % (100 * params[s]['gift'])})
+        elif d['gift']:
             # the name of the sector's own lagged wealth is requested before full codes exist: a placeholder
             # embedded in a sector equation (C05)
             prog.append({'op': 'AddVariable', 'sector': ref(s), 'name': 'GIFT', 'desc': 'gift',
@@ -170,6 +176,7 @@ def program_for(bp, decl, seed, horizon=HORIZON, with_ic=None, region_mode='rand
             eqn = '%0.2f*{%s:DEM_%s}' % (_dec(rnd, 0.05, 0.3), ref(r['mkt']), secs[r['mkt'] - 1]['code'])
         prog.append({'op': 'AddSupplier', 'market': ref(r['mkt']), 'supplier': ref(r['sup']), 'eqn': eqn})
     cur_of = {c['code']: c['cur'] for c in bp['countries']}
+    cur_of['EXT'] = 'NUMERAIRE'
     xrnd = random.Random('%s|%s|crossrates' % (bp['name'], seed))
     for f in bp['flows']:
         ca, cb = cur_of[secs[f['src'] - 1]['cc']], cur_of[secs[f['dst'] - 1]['cc']]
@@ -179,13 +186,29 @@ def program_for(bp, decl, seed, horizon=HORIZON, with_ic=None, region_mode='rand
             prog.append({'op': 'CrossRate', 'local': pair[0], 'foreign': pair[1]})
         prog.append({'op': 'RegisterCashFlow', 'src': ref(f['src']), 'dst': ref(f['dst']), 'var': f['var'],
                      'inc_src': f['incs'], 'inc_dst': f['incd']})
+    # the same statement can be made through the sector, through the model with the sector object, or through the
+    # model with the sector's full code as a string; the route is drawn per statement
+    arnd = random.Random('%s|%s|routes' % (bp['name'], seed))
+    n_countries = len(bp['countries']) + (0 if bp['external'] == 'none' else 1)
+
+    def route(st, i):
+        z = arnd.random()
+        if z < 0.6 or not api_routes:
+            return
+        if z < 0.8:
+            st['via'] = 'model_id'
+        else:
+            st['via'] = 'fullcode'
+            st['fullcode'] = secs[i - 1]['code'] if n_countries == 1 else secs[i - 1]['cc'] + '_' + secs[i - 1]['code']
     L = horizon + 2
     for x in bp['exo']:
         if x['var'] == 'r':
             path = [_dec(rnd, 0.0, 0.08, 3) for _ in range(L)]
         else:
             path = [0.0] + [_dec(rnd, 5, 40, 1) for _ in range(L - 1)]
-        prog.append({'op': 'Exogenous', 'sector': ref(x['s']), 'var': x['var'], 'value': repr(path)})
+        st = {'op': 'Exogenous', 'sector': ref(x['s']), 'var': x['var'], 'value': repr(path)}
+        route(st, x['s'])
+        prog.append(st)
     # model-level (global) equations: a decorative total that embeds names handed out before main()
     fs = [i for i, d in enumerate(secs, 1) if d['kind'] in ('Household', 'HouseholdWithExpectations', 'Capitalists')]
     if fs and rnd.random() < 0.6:
@@ -203,7 +226,9 @@ def program_for(bp, decl, seed, horizon=HORIZON, with_ic=None, region_mode='rand
     if ic:
         hh = [i for i, d in enumerate(secs, 1) if d['kind'] in ('Household', 'HouseholdWithExpectations')]
         if hh:
-            prog.append({'op': 'IC', 'sector': ref(hh[0]), 'var': 'F', 'value': _dec(rnd, 10, 90, 1)})
+            st = {'op': 'IC', 'sector': ref(hh[0]), 'var': 'F', 'value': _dec(rnd, 10, 90, 1)}
+            route(st, hh[0])
+            prog.append(st)
             if rnd.random() < 0.5:
                 prog.append({'op': 'IC', 'sector': ref(hh[0]), 'var': 'AfterTax', 'value': _dec(rnd, 10, 90, 1)})
     prog.append({'op': 'MaxTime', 'value': horizon})
@@ -280,6 +305,7 @@ def observe(bp, decl, seed, horizon=HORIZON, with_ic=None):
             secs = bp['sectors']
             n_same = {}
             cur = {c['code']: c['cur'] for c in bp['countries']}
+            cur['EXT'] = 'NUMERAIRE'
             for f in bp['flows']:
                 s1, s2 = secs[f['src'] - 1], secs[f['dst'] - 1]
                 if cur[s1['cc']] != cur[s2['cc']]:
@@ -342,7 +368,7 @@ def _phase_events(bp, decl, b):
     ref_idx = {d['cc'] + '.' + d['code']: i for i, d in enumerate(secs, 1)}
     out = [{'ev': 'BuildStart', 'name': bp['name'], 'decl': list(decl)}]
     for ph in b.phases:
-        if ph['kind'] == 'Generate' and ph.get('fullcode', '').startswith('EXT_'):
+        if ph['kind'] == 'Generate' and ph.get('fullcode', '') in ('EXT_XR', 'EXT_FX', 'EXT_GOLD'):
             continue          # the three sectors of the ExternalSector have no _GenerateEquations of their own
         led = []
         ok = 'unobservable' not in ph
